@@ -111,6 +111,8 @@ Proof.
     destruct (remove1 o (inflight s)) as [fl|]; [|discriminate].
     destruct (negb (opt_eqb (pos s) o)).
     { intros H; inversion H; subst. exact B. }
+    destruct (has_buf (buf s)) eqn:HB.
+    { intros H; inversion H; subst. exact B. }
     destruct (code =? 0).
     { destruct bs as [|b bs].
       - intros H; inversion H; subst. exact B.
@@ -285,6 +287,8 @@ Proof.
     destruct (remove1 o (inflight s)) as [fl|]; [|discriminate].
     destruct (opt_eqb (pos s) o) eqn:EO; simpl.
     2:{ intros H; inversion H; subst. reflexivity. }
+    destruct (has_buf (buf s)) eqn:HB; simpl.
+    { intros H; inversion H; subst. reflexivity. }
     destruct (code =? 0) eqn:E0; simpl.
     { destruct bs as [|b bs].
       - intros H; inversion H; subst. reflexivity.
@@ -425,6 +429,7 @@ Proof.
     intros H; inversion H; subst; exact J.
   - destruct (remove1 o0 (inflight s)); [|discriminate].
     destruct (negb (opt_eqb (pos s) o0)). { intros H; inversion H; subst; exact J. }
+    destruct (has_buf (buf s)). { intros H; inversion H; subst; exact J. }
     destruct (code =? 0).
     { destruct bs. { intros H; inversion H; subst; exact J. }
       destruct (valid_resp L o0 (b :: bs)); [|discriminate]. intros H; inversion H; subst; exact J. }
